@@ -6,6 +6,7 @@ nesting of sends inside deliveries, over any mix of links and wireless channels,
 point, also in the middle of a delivery).
 -/
 import PrimaiteModel.Model.Link
+import PrimaiteModel.Gen.Link
 
 namespace Primaite.Link
 
@@ -75,9 +76,9 @@ theorem runEv_ok (n : Net) (e : Ev) (h : Inv n) :
       simp only
       by_cases h1 : (if fromA then l.enA else l.enB) = true
       · by_cases h2 : l.isUp = true
-        · by_cases h3 : admit l.load s l.bw = true
+        · by_cases h3 : admits l.load s l.bw = true
           · simp only [h1, h2, h3, Bool.not_true, Bool.false_eq_true, if_false]
-            have hfit : l.load + s ≤ l.bw := by simpa [admit] using h3
+            have hfit : l.load + s ≤ l.bw := by simpa [admits] using h3
             have hup : (if fromA then l.enB else l.enA) = true := by
               unfold Link.isUp at h2
               cases fromA <;> simp_all
@@ -151,9 +152,9 @@ theorem runEv_ok (n : Net) (e : Ev) (h : Inv n) :
           subst hr
           exact recOk_stay _ _ _ _ _ _ _ _ _ rfl hl
         | true =>
-          by_cases h3 : admit ch.load s ch.cap = true
+          by_cases h3 : admits ch.load s ch.cap = true
           · simp only [h3, Bool.not_true, Bool.false_eq_true, if_false]
-            have hfit : ch.load + s ≤ ch.cap := by simpa [admit] using h3
+            have hfit : ch.load + s ≤ ch.cap := by simpa [admits] using h3
             have hn1 : Inv { n with chans := n.chans.set c { ch with load := ch.load + s } } :=
               inv_set_chan h c _ hfit
             obtain ⟨hi', hr⟩ := runEvs_ok _ nested hn1
@@ -292,7 +293,7 @@ theorem C18_overflow_dropped_at_sender (n : Net) (k : Nat) (fromA : Bool) (s : N
     (l : Link) (hl : n.links[k]? = some l) (hover : l.bw < l.load + s) :
     (runEv n (.send k fromA s acc nested)).1 = n ∧
     ∃ r, (runEv n (.send k fromA s acc nested)).2 = [r] ∧ r.verdict.crossed = false ∧ r.load = l.load := by
-  have hadm : admit l.load s l.bw = false := by simp [admit]; omega
+  have hadm : admits l.load s l.bw = false := by simp [admits]; omega
   unfold runEv
   simp only [hl, hadm]
   by_cases h1 : (if fromA then l.enA else l.enB) = true
@@ -304,7 +305,7 @@ theorem C18_air_overflow_dropped_at_sender (n : Net) (c i s : Nat) (nested : Lis
     (ch : Chan) (hc : n.chans[c]? = some ch) (hover : ch.cap < ch.load + s) :
     (runEv n (.wsend c i s nested)).1 = n ∧
     ∃ r, (runEv n (.wsend c i s nested)).2 = [r] ∧ r.verdict.crossed = false ∧ r.load = ch.load := by
-  have hadm : admit ch.load s ch.cap = false := by simp [admit]; omega
+  have hadm : admits ch.load s ch.cap = false := by simp [admits]; omega
   unfold runEv
   simp only [hc, hadm]
   cases hi : ch.en[i]? with
@@ -330,7 +331,7 @@ theorem C18_admitted_iff_fits (n : Net) (k : Nat) (fromA : Bool) (s : Nat) (acc 
     subst hr
     simp [hc'] at hc
   · intro hfit
-    have hadm : admit l.load s l.bw = true := by simp [admit]; exact hfit
+    have hadm : admits l.load s l.bw = true := by simp [admits]; exact hfit
     unfold runEv
     simp only [hl, hS, hup, hadm, Bool.not_true, Bool.false_eq_true, if_false]
     cases acc with
@@ -368,6 +369,28 @@ theorem C18_down_link_unchanged (n : Net) (k : Nat) (fromA : Bool) (s : Nat) (ac
   by_cases h1 : (if fromA then l.enA else l.enB) = true
   · simp [h1, hdown, Verdict.crossed]
   · simp [h1, Verdict.crossed]
+
+/-! ### Translator tie: what the source says now (Gen/Link.lean, regenerated every run) is what the model does -/
+
+/-- The admission tests of `Link.can_transmit_frame` and `AirSpace.can_transmit_frame` read from the source are the model's. -/
+theorem C18_gen_admit (load size cap : Nat) :
+    Gen.Link.admits load size cap = admits load size cap ∧ Gen.Link.airAdmits load size cap = admits load size cap :=
+  ⟨rfl, rfl⟩
+
+/-- `Link.is_up` read from the source is the model's. -/
+theorem C18_gen_isUp (l : Link) : Gen.Link.isUp l.enA l.enB = l.isUp := rfl
+
+/-- The order of the steps in `Link.transmit_frame` (size read once, load added *before* the delivery, released after a
+refusal), in `AirSpace.transmit`, and in the three `send_frame` methods (stamp *before* the admission test) is the model's. -/
+theorem C18_gen_orders :
+    Gen.Link.transmitOrder = transmitOrder ∧ Gen.Link.airTransmitOrder = airTransmitOrder ∧
+    Gen.Link.wiredSendOrder = wiredSendOrder ∧ Gen.Link.switchSendOrder = switchSendOrder ∧
+    Gen.Link.wirelessSendOrder = wirelessSendOrder := by decide
+
+/-- The remaining structural facts the model relies on. -/
+theorem C18_gen_flags :
+    Gen.Link.tickResetsEveryLoad = true ∧ Gen.Link.disableClearsLoad = true ∧
+    Gen.Link.rejectedMeansNodeNotInvolved = true ∧ Gen.Link.bytesPerMbit = 131072 := by decide
 
 /-! ### Non-vacuity: a tight link, an ARP-like request whose delivery triggers the reply -/
 
